@@ -178,16 +178,22 @@ pub fn starts_with_parenthese(statement: &Statement) -> bool {
 
 fn expression_ends_with_prefix(expression: &Expression, keep_tokens: bool) -> bool {
     match expression {
-        Expression::Binary(binary) => expression_ends_with_prefix(binary.right(), keep_tokens),
+        Expression::Binary(binary) => {
+            // the generators write the parentheses that a right operand needs
+            binary.operator().right_needs_parentheses(binary.right())
+                || expression_ends_with_prefix(binary.right(), keep_tokens)
+        }
         Expression::Call(_)
         | Expression::Parenthese(_)
         | Expression::Identifier(_)
         | Expression::Field(_)
         | Expression::Index(_)
         | Expression::TypeInstantiation(_) => true,
-        Expression::Unary(unary) => {
-            expression_ends_with_prefix(unary.get_expression(), keep_tokens)
-        }
+        Expression::Unary(unary) => match unary.get_expression() {
+            // written between parentheses by the generators
+            Expression::Binary(binary) if !binary.operator().precedes_unary_expression() => true,
+            expression => expression_ends_with_prefix(expression, keep_tokens),
+        },
         Expression::If(if_expression) => {
             expression_ends_with_prefix(if_expression.get_else_result(), keep_tokens)
         }
